@@ -288,6 +288,34 @@ def del_keys(impl, ti, labels=()):
     return out
 
 
+def via_shortcut(rng, impl, ti, op):
+    """an add(<node>) / add(<tree>) through one of the four shortcuts of add_child (append_child, prepend_child, prepend_sibling,
+    append_sibling): `before` is what the shortcut passes on, the call itself carries no `before`"""
+    p = op["p"]
+    tgt = impl.node(ti, p) if p else impl.trees[ti].system_root
+    kids = list(tgt.children)
+    is_typed = hasattr(tgt, "kind")
+    names = (["append_child", "prepend_child"] if p else []) + (["prepend_sibling", "append_sibling"] if kids and not (is_typed and op["op"] == "w.addtree") else [])
+    if not names:
+        return
+    name = rng.choice(names)
+    if name == "append_child":
+        op["before"], ref = None, None
+    elif name == "prepend_child":
+        op["before"], ref = ({"path": p + [0]} if kids else None), None
+    else:
+        j = rng.randrange(len(kids))
+        ref = p + [j]
+        if is_typed:
+            op["kind"] = kids[j].kind       # the typed sibling shortcuts add a node "of the same kind": they take no `kind`
+        if name == "prepend_sibling":
+            op["before"] = {"path": p + [j]}
+        else:
+            op["before"] = {"path": p + [j + 1]} if j + 1 < len(kids) else None
+    op.pop("before_explicit", None)
+    op["sc"] = [name, ref]
+
+
 def random_op(rng, impl, ti, *, labels, malformed=0.1, typed=False, ops=None, did_rate=0.15, dids=(1001, 1002, "x", "y", 7, 0, "")):
     """one random (mostly valid) op on tree ti, based on the implementation's current shape"""
     t = impl.trees[ti]
@@ -364,6 +392,8 @@ def random_op(rng, impl, ti, *, labels, malformed=0.1, typed=False, ops=None, di
             op["did"] = rng.choice([impl.node(st, sp).data_id, impl.node(st, sp).data_id, 0, "", 1001, "x"])
             if isinstance(op["did"], int) and abs(op["did"]) >= 10**6:
                 del op["did"]       # a hash value: not reproducible across processes
+        if op.get("via") != "copy_to" and not mal and rng.random() < 0.3:
+            via_shortcut(rng, impl, ti, op)
         return op
     if k == "copykids":
         st = rng.randrange(len(impl.trees))
@@ -381,8 +411,11 @@ def random_op(rng, impl, ti, *, labels, malformed=0.1, typed=False, ops=None, di
             return random_op(rng, impl, ti, labels=labels, malformed=malformed, typed=typed, ops=["add"])
         p = rng.choice(allp)
         bs_ = befores(rng, impl, ti, p, malformed=mal)
-        return {"op": "w.addtree", "t": ti, "p": p, "st": st, "before": rng.choice(bs_ if mal else bs_[:8]),
-                "deep": rng.choice([None, None, True, False])}
+        op = {"op": "w.addtree", "t": ti, "p": p, "st": st, "before": rng.choice(bs_ if mal else bs_[:8]),
+              "deep": rng.choice([None, None, True, False])}
+        if not mal and rng.random() < 0.35:
+            via_shortcut(rng, impl, ti, op)
+        return op
     if k == "move":
         n = rng.choice(paths)
         cands = [q for q in allp if q[: len(n)] != n] if not mal else allp
